@@ -65,6 +65,8 @@ def single_value_plan(app: App, variables: List[Var]) -> Tuple[Callable[[int, ra
                     values[var.name] = harness.boundary_value(rng, by_var[var.name])
                 else:
                     values[var.name] = harness.boundary_value(rng, kept[var.name]) if kept.get(var.name) and rng.random() < 0.2 else 0
+                    if var.stale_ok and rng.random() < 0.3:  # a carry left set by an earlier documented macro
+                        values[var.name] = harness.boundary_value(rng, var.length)
             else:
                 values[var.name] = harness.boundary_value(rng, var.bits_per_cell * var.length)
         if exhaustive:
@@ -126,6 +128,7 @@ class Recorder:
         self.count('applications_monitored', monitor.applications)
         self.count('variable_cells_compared', monitor.cells_compared)
         self.count('unspecified_cases_skipped', monitor.skipped_unspecified)
+        self.count('applications_checked_with_a_stale_carry', monitor.stale_cases)
         self.count(f'width/{w}')
         for key, value in monitor.branches_seen.items():
             self.counters.setdefault('branches_seen', {})
@@ -249,7 +252,8 @@ def shard_sequence(rec: Recorder, specs: List[Spec], seed: Any, programs: int, t
             continue
 
         def plan(pass_index: int, prng: random.Random, variables: List[Var] = variables) -> Dict[str, int]:
-            return {v.name: (harness.boundary_value(prng, v.length) if v.kind == 'field' and v.length and prng.random() < 0.1 else 0)
+            return {v.name: (harness.boundary_value(prng, v.length) if v.kind == 'field' and v.length
+                             and prng.random() < (0.3 if v.stale_ok else 0.05) else 0)
                     if v.hidden else harness.boundary_value(prng, v.bits_per_cell * v.length) for v in variables}
 
         passes = 400 if tier == 'quick' else 4000
